@@ -153,7 +153,8 @@ Proof.
         -- simpl in Hr. destruct (step prof t s c) as [s1|] eqn:E1; [|discriminate].
            unfold all_client in Hc. simpl in Hc. apply andb_prop in Hc as [_ Hc].
            apply (IH s1 s' cl0 (h :: hl') tr0); auto;
-             [simpl in Hf |- *; lia | unfold all_handler; simpl; rewrite Hh1; simpl; auto].
+             try (unfold all_handler; simpl; rewrite Hh1; simpl; auto; fail);
+             simpl in Hf |- *; lia.
         -- simpl in Hr. rewrite E in Hr. discriminate.
 Qed.
 
